@@ -431,27 +431,29 @@ def r193(ctx, rep, f, ev, cg, reach):
     wv = IRF + "generate_its_readout_frame_word_view"
     tb = ev.tb(wv)
     if tb is not None:
-        arms = {}
-        for x, n in tb.walk():
-            if n["k"] == "Match":
-                for a in n["arms"]:
-                    arm = tb.arms[a]
-                    pats = arm["pat"]["pats"] if arm["pat"]["k"] == "Or" else [arm["pat"]]
-                    for p_ in pats:
-                        if p_["k"] == "Variant" and (p_.get("adt") or "").endswith("ItsPayloadWord"):
-                            lits = [m["str"] for _, m in tb.walk(arm["body"]) if m["k"] == "Lit" and "str" in m]
-                            mac = set()
-                            for _, m in tb.walk(arm["body"]):
-                                for mm in (m.get("sp") or {}).get("mac") or []:
-                                    mac.add(mm.split("!")[0])
-                            arms[p_["vname"]] = "writeln" in " ".join(mac)
-                break
+        # decided per (word type, plain/styled, data rows asked for): how many rows are written
         simple = ["DataWord", "TDH", "TDT", "IHW", "DDW0", "CDW"]
-        rep.check(all(arms.get(k) for k in simple), "R19.3", "R19.3|row-per-type", "every simple word type has a printed row", wv, "arms that print: %s" % arms)
-        # data words only when requested
-        ifs = [o for o in ev.collect_ifs(wv, [Sym("WT"), Slice("W", 0, 10), Sym("pos"), Sym("lock"), Sym("PLAIN"), Sym("SHOWDATA")]) if "cond" in o]
-        dw_if = [o for o in ifs if ckey(o["cond"]) == "symc(sym(SHOWDATA))"]
-        rep.check(len(dw_if) == 1 and any("isDataWord" in g for g in dw_if[0]["guard"]), "R19.3", "R19.3|data-rows-optional", "data-word rows are printed iff the data view asked for them", wv)
+        adt = next((p_["adt"] for _, n in tb.walk() if n["k"] == "Match" for a in n["arms"]
+                    for p_ in (tb.arms[a]["pat"]["pats"] if tb.arms[a]["pat"]["k"] == "Or" else [tb.arms[a]["pat"]])
+                    if p_["k"] == "Variant" and (p_.get("adt") or "").endswith("ItsPayloadWord")), "fastpasta::analyze::validators::its::lib::ItsPayloadWord")
+        rows = {}
+        ev.watch = lambda c: c.endswith("::write_fmt")
+        try:
+            for v in simple:
+                for plain in (True, False):
+                    for show in (True, False):
+                        try:
+                            recs = ev.collect_ifs(wv, [Agg(adt, v, {}), Slice("W", 0, 10), Sym("pos"), Sym("lock"), Cond("true" if plain else "false"), Cond("true" if show else "false")])
+                            rows[(v, plain, show)] = len([o for o in recs if "call" in o and not o.get("closure") and not any(g in ("false", "not true") for g in o["guard"])])
+                        except Unsupported as e:
+                            rows[(v, plain, show)] = "?%s" % e
+        finally:
+            ev.watch = None
+        missing = sorted(k for k, n in rows.items() if k[0] != "DataWord" and n != 1)
+        rep.check(not missing, "R19.3", "R19.3|row-per-type", "every simple word type has exactly one printed row (plain and styled)", wv, "rows written per (type, plain, data rows asked for): %s" % {k: rows[k] for k in missing})
+        dw = {k[1:]: n for k, n in rows.items() if k[0] == "DataWord"}
+        want = {(pl, sh): (1 if sh else 0) for pl in (True, False) for sh in (True, False)}
+        rep.check(dw == want, "R19.3", "R19.3|data-rows-optional", "data-word rows are printed iff the data view asked for them", wv, "data-word rows written per (plain, data rows asked for): %s, expected %s" % (dw, want))
     fw = V + "lib::format_word_slice"
     if fw in f.fns:
         b = cg.body(fw)
